@@ -1,4 +1,350 @@
 package main
 
-// ModeB: interposed keeper (see modeb_impl.go)
-type ModeB struct{}
+// Mode B — interposed node. After NewSimApp returns, a second orbiter keeper is built from
+// the module's public constructors on the SAME orbiter store key, but with wrapped
+// dependencies: every call orbiter makes to the outside (bank, CCTP, Hyperlane, internal
+// bank message server, event manager, wrapped ICS-20 application) goes through a wrapper
+// that records it and can fail it, before or after the real call. The IBC route is swapped
+// to blockibc(orbiter-middleware(wrap(transfer))). A test action registered under
+// ACTION_SWAP changes the denomination (needed by C06/C12).
+
+import (
+	"context"
+	"errors"
+	"fmt"
+	"math/big"
+	"strings"
+
+	"cosmossdk.io/core/event"
+	"cosmossdk.io/log"
+	sdkmath "cosmossdk.io/math"
+	warpkeeper "github.com/bcp-innovations/hyperlane-cosmos/x/warp/keeper"
+	warptypes "github.com/bcp-innovations/hyperlane-cosmos/x/warp/types"
+	cctpkeeper "github.com/circlefin/noble-cctp/x/cctp/keeper"
+	cctptypes "github.com/circlefin/noble-cctp/x/cctp/types"
+	"github.com/circlefin/noble-fiattokenfactory/x/blockibc"
+	"github.com/cosmos/cosmos-sdk/runtime"
+	sdk "github.com/cosmos/cosmos-sdk/types"
+	authcodec "github.com/cosmos/cosmos-sdk/x/auth/codec"
+	bankkeeper "github.com/cosmos/cosmos-sdk/x/bank/keeper"
+	banktypes "github.com/cosmos/cosmos-sdk/x/bank/types"
+	"github.com/cosmos/ibc-go/v8/modules/apps/transfer"
+	transfertypes "github.com/cosmos/ibc-go/v8/modules/apps/transfer/types"
+	channeltypes "github.com/cosmos/ibc-go/v8/modules/core/04-channel/types"
+	porttypes "github.com/cosmos/ibc-go/v8/modules/core/05-port/types"
+	ibcexported "github.com/cosmos/ibc-go/v8/modules/core/exported"
+	"google.golang.org/protobuf/runtime/protoiface"
+
+	"github.com/noble-assets/orbiter/v2/controller"
+	actionctrl "github.com/noble-assets/orbiter/v2/controller/action"
+	adapterctrl "github.com/noble-assets/orbiter/v2/controller/adapter"
+	forwardingctrl "github.com/noble-assets/orbiter/v2/controller/forwarding"
+	"github.com/noble-assets/orbiter/v2/entrypoint"
+	orbiterkeeper "github.com/noble-assets/orbiter/v2/keeper"
+	forwardercomp "github.com/noble-assets/orbiter/v2/keeper/component/forwarder"
+	"github.com/noble-assets/orbiter/v2/testutil/testdata"
+	orbitertypes "github.com/noble-assets/orbiter/v2/types"
+	forwardertypes "github.com/noble-assets/orbiter/v2/types/component/forwarder"
+	forwardingtypes "github.com/noble-assets/orbiter/v2/types/controller/forwarding"
+	"github.com/noble-assets/orbiter/v2/types/core"
+)
+
+const (
+	faultNone   = 0
+	faultBefore = 1 // the call is not made; an error is returned
+	faultAfter  = 2 // the real call runs, then an error is returned
+)
+
+type CallRec struct {
+	Site string
+	Req  any // copy of the request where there is one
+}
+
+// Plan: which dynamic call indexes fail, and how.
+type Plan struct {
+	Fail  map[int]int // call index -> faultBefore|faultAfter
+	Calls []CallRec
+	Fired []int
+}
+
+func (p *Plan) hit(site string, req any) int {
+	p.Calls = append(p.Calls, CallRec{Site: site, Req: req})
+	idx := len(p.Calls) - 1
+	if m := p.Fail[idx]; m != 0 {
+		p.Fired = append(p.Fired, idx)
+		return m
+	}
+	return faultNone
+}
+
+var errInjected = errors.New("injected downstream failure")
+
+type ModeB struct {
+	Plan   *Plan
+	K      *orbiterkeeper.Keeper
+	Stack  porttypes.IBCModule
+	MsgFwd forwardertypes.MsgServer
+}
+
+func (b *ModeB) Reset(fail map[int]int) {
+	b.Plan.Fail, b.Plan.Calls, b.Plan.Fired = fail, nil, nil
+}
+
+// ---- wrappers
+
+type fBank struct {
+	bankkeeper.Keeper
+	p *Plan
+}
+
+func (b fBank) SendCoins(ctx context.Context, from, to sdk.AccAddress, amt sdk.Coins) error {
+	switch b.p.hit("bank.SendCoins", fmt.Sprintf("%s->%s %s", from, to, amt)) {
+	case faultBefore:
+		return errInjected
+	case faultAfter:
+		_ = b.Keeper.SendCoins(ctx, from, to, amt)
+		return errInjected
+	}
+	return b.Keeper.SendCoins(ctx, from, to, amt)
+}
+
+func (b fBank) SendCoinsFromModuleToModule(ctx context.Context, s, r string, amt sdk.Coins) error {
+	switch b.p.hit("bank.SendCoinsFromModuleToModule", fmt.Sprintf("%s->%s %s", s, r, amt)) {
+	case faultBefore:
+		return errInjected
+	case faultAfter:
+		_ = b.Keeper.SendCoinsFromModuleToModule(ctx, s, r, amt)
+		return errInjected
+	}
+	return b.Keeper.SendCoinsFromModuleToModule(ctx, s, r, amt)
+}
+
+func (b fBank) GetBalance(ctx context.Context, addr sdk.AccAddress, denom string) sdk.Coin {
+	b.p.hit("bank.GetBalance", nil) // recorded only: returning wrong data is not a fault this technique injects
+	return b.Keeper.GetBalance(ctx, addr, denom)
+}
+
+type fCCTP struct {
+	inner forwardingtypes.CCTPMsgServer
+	p     *Plan
+}
+
+func (c fCCTP) DepositForBurn(ctx context.Context, m *cctptypes.MsgDepositForBurn) (*cctptypes.MsgDepositForBurnResponse, error) {
+	cp := *m
+	switch c.p.hit("cctp.DepositForBurn", cp) {
+	case faultBefore:
+		return nil, errInjected
+	case faultAfter:
+		_, _ = c.inner.DepositForBurn(ctx, m)
+		return nil, errInjected
+	}
+	return c.inner.DepositForBurn(ctx, m)
+}
+
+func (c fCCTP) DepositForBurnWithCaller(ctx context.Context, m *cctptypes.MsgDepositForBurnWithCaller) (*cctptypes.MsgDepositForBurnWithCallerResponse, error) {
+	cp := *m
+	switch c.p.hit("cctp.DepositForBurnWithCaller", cp) {
+	case faultBefore:
+		return nil, errInjected
+	case faultAfter:
+		_, _ = c.inner.DepositForBurnWithCaller(ctx, m)
+		return nil, errInjected
+	}
+	return c.inner.DepositForBurnWithCaller(ctx, m)
+}
+
+func (c fCCTP) ReplaceDepositForBurn(ctx context.Context, m *cctptypes.MsgReplaceDepositForBurn) (*cctptypes.MsgReplaceDepositForBurnResponse, error) {
+	cp := *m
+	switch c.p.hit("cctp.ReplaceDepositForBurn", cp) {
+	case faultBefore:
+		return nil, errInjected
+	case faultAfter:
+		_, _ = c.inner.ReplaceDepositForBurn(ctx, m)
+		return nil, errInjected
+	}
+	return c.inner.ReplaceDepositForBurn(ctx, m)
+}
+
+type fHyp struct {
+	inner forwardingtypes.HyperlaneHandler
+	p     *Plan
+}
+
+func (h fHyp) RemoteTransfer(ctx context.Context, m *warptypes.MsgRemoteTransfer) (*warptypes.MsgRemoteTransferResponse, error) {
+	cp := *m
+	switch h.p.hit("hyperlane.RemoteTransfer", cp) {
+	case faultBefore:
+		return nil, errInjected
+	case faultAfter:
+		_, _ = h.inner.RemoteTransfer(ctx, m)
+		return nil, errInjected
+	}
+	return h.inner.RemoteTransfer(ctx, m)
+}
+
+func (h fHyp) Token(ctx context.Context, q *warptypes.QueryTokenRequest) (*warptypes.QueryTokenResponse, error) {
+	cp := *q
+	switch h.p.hit("hyperlane.Token", cp) {
+	case faultBefore, faultAfter:
+		return nil, errInjected
+	}
+	return h.inner.Token(ctx, q)
+}
+
+type fInternal struct {
+	inner forwardingtypes.InternalHandler
+	p     *Plan
+}
+
+func (i fInternal) Send(ctx context.Context, m *banktypes.MsgSend) (*banktypes.MsgSendResponse, error) {
+	cp := *m
+	switch i.p.hit("internal.Send", cp) {
+	case faultBefore:
+		return nil, errInjected
+	case faultAfter:
+		_, _ = i.inner.Send(ctx, m)
+		return nil, errInjected
+	}
+	return i.inner.Send(ctx, m)
+}
+
+type fEvents struct {
+	inner event.Service
+	p     *Plan
+}
+
+type fEM struct {
+	event.Manager
+	p *Plan
+}
+
+func (e fEvents) EventManager(ctx context.Context) event.Manager {
+	return fEM{e.inner.EventManager(ctx), e.p}
+}
+
+func (m fEM) Emit(ctx context.Context, ev protoiface.MessageV1) error {
+	name := fmt.Sprintf("%T", ev)
+	if i := strings.LastIndex(name, "."); i >= 0 {
+		name = name[i+1:]
+	}
+	switch m.p.hit("event.Emit("+name+")", nil) {
+	case faultBefore:
+		return errInjected
+	case faultAfter:
+		_ = m.Manager.Emit(ctx, ev)
+		return errInjected
+	}
+	return m.Manager.Emit(ctx, ev)
+}
+
+// fApp wraps the ICS-20 application below the orbiter middleware.
+type fApp struct {
+	porttypes.IBCModule
+	p *Plan
+}
+
+func (a fApp) OnRecvPacket(ctx sdk.Context, packet channeltypes.Packet, relayer sdk.AccAddress) ibcexported.Acknowledgement {
+	switch a.p.hit("ics20.OnRecvPacket", nil) {
+	case faultBefore:
+		return channeltypes.NewErrorAcknowledgement(errInjected)
+	case faultAfter:
+		_ = a.IBCModule.OnRecvPacket(ctx, packet, relayer)
+		return channeltypes.NewErrorAcknowledgement(errInjected)
+	}
+	return a.IBCModule.OnRecvPacket(ctx, packet, relayer)
+}
+
+// ---- the denomination-changing test action (registered under ACTION_SWAP)
+
+// swapController converts the running coin into another denomination at a rational rate
+// through a pool account: attributes "Whatever" = "<target denom>:<num>/<den>".
+type swapController struct {
+	*controller.BaseController[core.ActionID]
+	bank bankkeeper.Keeper
+	pool sdk.AccAddress
+}
+
+func parseSwap(w string) (denom string, num, den int64, ok bool) {
+	i := strings.Index(w, ":")
+	if i < 0 {
+		return
+	}
+	denom = w[:i]
+	if _, err := fmt.Sscanf(w[i+1:], "%d/%d", &num, &den); err != nil || num <= 0 || den <= 0 {
+		return
+	}
+	return denom, num, den, true
+}
+
+func (c *swapController) HandlePacket(ctx context.Context, packet *orbitertypes.ActionPacket) error {
+	attr, err := packet.Action.CachedAttributes()
+	if err != nil {
+		return err
+	}
+	ta, ok := attr.(*testdata.TestActionAttr)
+	if !ok {
+		return fmt.Errorf("swap: unexpected attributes %T", attr)
+	}
+	denom, num, den, ok := parseSwap(ta.Whatever)
+	if !ok {
+		return fmt.Errorf("swap: bad attributes %q", ta.Whatever)
+	}
+	t := packet.TransferAttributes
+	in := t.DestinationAmount()
+	out := new(big.Int).Mul(in.BigInt(), big.NewInt(num))
+	out.Quo(out, big.NewInt(den))
+	if out.Sign() <= 0 || out.BitLen() > 255 {
+		return fmt.Errorf("swap: output out of range")
+	}
+	if err := c.bank.SendCoins(ctx, core.ModuleAddress, c.pool, sdk.NewCoins(sdk.NewCoin(t.DestinationDenom(), in))); err != nil {
+		return err
+	}
+	if err := c.bank.SendCoins(ctx, c.pool, core.ModuleAddress, sdk.NewCoins(sdk.NewCoin(denom, sdkmath.NewIntFromBigInt(out)))); err != nil {
+		return err
+	}
+	t.SetDestinationDenom(denom)
+	t.SetDestinationAmount(sdkmath.NewIntFromBigInt(out))
+	return nil
+}
+
+// installModeB builds the interposed keeper and swaps the IBC route. Called after every boot.
+func installModeB(n *Node) *ModeB {
+	app := n.App
+	cdc := app.OrbiterKeeper.Codec()
+	cdc.InterfaceRegistry().RegisterImplementations((*core.ActionAttributes)(nil), &testdata.TestActionAttr{})
+	p := &Plan{Fail: map[int]int{}}
+	logger := log.NewNopLogger()
+	evs := fEvents{runtime.ProvideEventService(), p}
+	bank := fBank{app.BankKeeper, p}
+	k2 := orbiterkeeper.NewKeeper(cdc, authcodec.NewBech32Codec("noble"), logger, evs, runtime.NewKVStoreService(app.GetKey("orbiter")), app.OrbiterKeeper.Authority(), bank)
+	cctpC, err := forwardingctrl.NewCCTPController(logger, fCCTP{cctpkeeper.NewMsgServerImpl(app.CCTPKeeper), p})
+	must(err)
+	hypC, err := forwardingctrl.NewHyperlaneController(logger, fHyp{forwardingtypes.NewHyperlaneHandler(warpkeeper.NewMsgServerImpl(app.WarpKeeper), warpkeeper.NewQueryServerImpl(app.WarpKeeper)), p})
+	must(err)
+	intC, err := forwardingctrl.NewInternalController(logger, fInternal{bankkeeper.NewMsgServerImpl(app.BankKeeper), p})
+	must(err)
+	must(k2.SetForwardingControllers(cctpC, hypC, intC))
+	feeC, err := actionctrl.NewFeeController(logger, evs, bank)
+	must(err)
+	base, err := controller.NewBase(core.ACTION_SWAP)
+	must(err)
+	swapC := &swapController{BaseController: base, bank: app.BankKeeper, pool: n.Env.Noble[2].Addr}
+	must(k2.SetActionControllers(feeC, swapC))
+	ibcA, err := adapterctrl.NewIBCAdapter(cdc, logger)
+	must(err)
+	must(k2.SetAdapterControllers(ibcA))
+	var stack porttypes.IBCModule = fApp{transfer.NewIBCModule(app.TransferKeeper), p}
+	stack = entrypoint.NewIBCMiddleware(stack, app.IBCKeeper.ChannelKeeper, k2.Adapter())
+	stack = blockibc.NewIBCMiddleware(stack, app.FTFKeeper)
+	r := porttypes.NewRouter().AddRoute(transfertypes.ModuleName, stack)
+	r.Seal()
+	app.IBCKeeper.Router = r
+	app.IBCKeeper.PortKeeper.Router = r
+	return &ModeB{Plan: p, K: k2, Stack: stack, MsgFwd: forwardercomp.NewMsgServer(k2.Forwarder(), k2)}
+}
+
+func must(err error) {
+	if err != nil {
+		panic(harnessErr("mode B wiring: %v", err))
+	}
+}
